@@ -53,12 +53,24 @@ func (obj Values) Hierarchy() []Symbol {
 
 // Eval panics.
 func (obj Values) Eval(s *Scope, depth int) Object {
+	return obj.First()
+}
+
+// First value in the multiple values or nil if there are none.
+func (obj Values) First() Object {
+	if len(obj) == 0 {
+		return nil
+	}
 	return obj[0]
 }
 
-// First value in the multiple values.
-func (obj Values) First() Object {
-	return obj[0]
+// Primary returns the primary value of v: v itself unless v is a Values in
+// which case the first value or nil when there are no values.
+func Primary(v Object) Object {
+	if vs, ok := v.(Values); ok {
+		return vs.First()
+	}
+	return v
 }
 
 // LoadForm returns a form that can be evaluated to create the object.
